@@ -84,6 +84,10 @@ theorem PF.cancelKindFor_fst {w0 w : World} (h : PF w0 w) (p : Pid) (act : Nat) 
     PF w0 (cancelKindFor w p act sig).1 := by
   unfold Sim.cancelKindFor; exact PF.foldl (fun w q => by pf) _ h
 macro_rules | `(tactic| pf_fun) => `(tactic| with_reducible apply PF.cancelKindFor_fst)
+theorem PF.cancelUserAll_fst {w0 w : World} (h : PF w0 w) :
+    PF w0 (cancelUserAll w).1 := by
+  unfold Sim.cancelUserAll; exact PF.foldl (fun w q => by pf) _ h
+macro_rules | `(tactic| pf_fun) => `(tactic| with_reducible apply PF.cancelUserAll_fst)
 theorem PF.wakeEventWaiters {w0 w : World} (h : PF w0 w) (ps : List Pid) (sig : Int) : PF w0 (wakeEventWaiters w ps sig) := by
   unfold Sim.wakeEventWaiters; exact PF.foldl (fun w q => by pf) _ h
 macro_rules | `(tactic| pf_fun) => `(tactic| with_reducible apply PF.wakeEventWaiters)
